@@ -41,3 +41,43 @@ package client
 //@ at call chan-send:o.trafficSeen requires calls("rpc2.(*Client).CallWithContext") == 1
 //@ ensures calls("rpc2.(*Client).CallWithContext") <= 1
 //@ ensures_ok calls("rpc2.(*Client).CallWithContext") == 1
+
+// ---- notification handlers (C01): deferral -------------------------------------------
+// While a monitor's initial contents are outstanding (deferUpdates) a
+// notification is buffered, in arrival order, and nothing is applied to the
+// cache; otherwise it is applied exactly once, under the cache lock.
+//@ func (*ovsdbClient).update
+//@ requires o != nil && reply != nil
+//@ at call cache.(*TableCache).Update requires rheld(db.cacheMutex) >= 1 && !db.deferUpdates && calls("cache.(*TableCache).Update") == 0
+//@ ensures old(db.deferUpdates) ==> calls("cache.(*TableCache).Update") == 0
+//@ ensures_ok old(db.deferUpdates) ==> (len(db.deferredUpdates) == old(len(db.deferredUpdates)) + 1 && db.deferredUpdates[len(db.deferredUpdates) - 1] != nil && db.deferredUpdates[len(db.deferredUpdates) - 1].updates == &updates)
+//@ ensures_ok !old(db.deferUpdates) ==> calls("cache.(*TableCache).Update") == 1
+
+//@ func (*ovsdbClient).update2
+//@ requires o != nil && reply != nil
+//@ at call cache.(*TableCache).Update2 requires rheld(db.cacheMutex) >= 1 && !db.deferUpdates && calls("cache.(*TableCache).Update2") == 0
+//@ ensures old(db.deferUpdates) ==> calls("cache.(*TableCache).Update2") == 0
+//@ ensures_ok old(db.deferUpdates) ==> (len(db.deferredUpdates) == old(len(db.deferredUpdates)) + 1 && db.deferredUpdates[len(db.deferredUpdates) - 1] != nil && db.deferredUpdates[len(db.deferredUpdates) - 1].updates2 == &updates)
+//@ ensures_ok !old(db.deferUpdates) ==> calls("cache.(*TableCache).Update2") == 1
+
+//@ func (*ovsdbClient).update3
+//@ requires o != nil && reply != nil
+//@ at call cache.(*TableCache).Update2 requires rheld(db.cacheMutex) >= 1 && !db.deferUpdates && calls("cache.(*TableCache).Update2") == 0
+//@ ensures old(db.deferUpdates) ==> calls("cache.(*TableCache).Update2") == 0
+//@ ensures_ok old(db.deferUpdates) ==> (len(db.deferredUpdates) == old(len(db.deferredUpdates)) + 1 && db.deferredUpdates[len(db.deferredUpdates) - 1] != nil && db.deferredUpdates[len(db.deferredUpdates) - 1].updates2 == &updates && db.deferredUpdates[len(db.deferredUpdates) - 1].lastTxnID == lastTransactionID)
+//@ ensures_ok !old(db.deferUpdates) ==> calls("cache.(*TableCache).Update2") == 1
+
+//@ func github.com/prometheus/client_golang/prometheus.(*CounterVec).WithLabelValues
+//@ trusted "external: prometheus CounterVec.WithLabelValues returns a usable Counter"
+//@ pure
+//@ ensures result != nil
+
+// monitor (C01, C16): the reply and then the buffered notifications are applied
+// inside one cache critical section; afterwards notifications are no longer
+// deferred and the buffer is empty; the cache is purged only when reconnecting.
+//@ func (*ovsdbClient).monitor
+//@ requires o != nil && monitor != nil
+//@ at call cache.(*TableCache).Populate requires wheld(db.cacheMutex) >= 1
+//@ at call cache.(*TableCache).Populate2 requires wheld(db.cacheMutex) >= 1
+//@ at call cache.(*TableCache).Purge requires wheld(db.cacheMutex) >= 1 && reconnecting
+//@ ensures_ok !db.deferUpdates && len(db.deferredUpdates) == 0
